@@ -1,4 +1,9 @@
+#[cfg(not(torrent_bootstrap_verif))]
 use std::{collections::HashMap, ops::DerefMut, path::PathBuf, sync::{Arc, Mutex}};
+#[cfg(torrent_bootstrap_verif)]
+use std::{collections::HashMap, ops::DerefMut, path::PathBuf};
+#[cfg(torrent_bootstrap_verif)]
+use crate::verif::sync::{Arc, Mutex};
 use crate::{get_sha1_hexdigest, orchestrator::OrchestrationPiece, writer::FileWriter};
 use super::{multiple, single};
 
@@ -43,7 +48,13 @@ impl PieceSolver {
     }
 
     pub fn solve(&mut self, piece: OrchestrationPiece) { 
+        #[cfg(torrent_bootstrap_verif)]
+        let _verif_scope = crate::verif::probe::enter_piece(&piece);
+
         let result = self.solve_internal(&piece);
+
+        #[cfg(torrent_bootstrap_verif)]
+        crate::verif::probe::piece_result(&result);
 
         let mut state = self.state.lock().unwrap();
 
